@@ -35,6 +35,9 @@ func scriptFromCase(c *Case) *svc.Script {
 }
 
 func c11Check(c *Case) []Violation {
+	if c.Kind == "seeded-order" {
+		return seededOrderRepeatable(c, "C11")
+	}
 	req := asM(roundTrip(c.Req))
 	out := Decide(J(c.Req), scriptFromCase(c))
 	if !out.Accepted {
@@ -182,6 +185,11 @@ func c11Run(s *Shard) {
 	cur = s
 	s.Bounds["grids"] = "n<=4:{0,1,2}^2, n=5:{0,1}^2, n=3 tie-neighbourhood, m=3:{0,1}^3 n<=3; thorough adds n=5:{0,1,2}^2, n=6:{0,1}^2, n=4 m=3"
 	s.Bounds["script_deviations"] = map[bool]int{true: 1, false: 2}[quick(s)]
+	seededOrderCases(s, "C11", "majorityHeuristic", func(c *Case) {
+		s.Evals += 4
+		s.Begin(c)
+		s.Report(c11Check(c))
+	})
 	majEnumerate(s, "C11", func(c *Case) {
 		s.Evals++
 		s.Begin(c)
